@@ -5,7 +5,8 @@ Spec : Bind.tla KeyBytes: the single component's encoding, or for a composite ke
        routing keys are checked against; TLC also proves that an independent reader of the composite layout
        (SplitComposite) gets the components back.
 TLC  : enumerates models with 1..MMaxPk partition key columns over the type alphabet MTypes x two values per type
-       x the mapper operations MOps.
+       x the mapper operations MOps x the application history MOrders (which models were defined and used first:
+       those keyed by the base column classes Integer / Text, or those keyed by their subclasses).
 Bind : for every case a real cqlengine Model class is built, the operation is run through the public mapper API
        against a recording connection (registered with connection.register_connection(session=...)), and the
        routing_key / keyspace of every statement object handed to session.execute must be the spec's bytes.
@@ -26,8 +27,10 @@ META = {
                   "per type incl. negative numbers, False, multi-byte strings) and 11 mapper operations that fix the whole partition "
                   "key (query-set get/count/iteration/update/delete incl. TTL and IF EXISTS, Model.create, instance save/update/"
                   "delete); every statement reaching session.execute is captured and its routing key must be the definition's bytes.",
-    "level_note": "ONLY the bounded type alphabet is covered: Integer, Text, BigInt, Boolean, UUID (quick) plus SmallInt, TinyInt, "
-                  "Ascii, Blob (thorough). Key-capable types whose encoding is calendar / wide-number arithmetic (DateTime, Date, "
+    "level_note": "ONLY the bounded type alphabet is covered: Integer, Text, BigInt, UUID (quick) plus Boolean, SmallInt, TinyInt, "
+                  "Ascii, Blob and empty text / blob components (thorough). Every case is run in two application histories "
+                  "(models keyed by the base column classes defined and used first / models keyed by their subclasses first), "
+                  "each in a freshly imported cqlengine whose column and model classes are then shared by all cases. Key-capable types whose encoding is calendar / wide-number arithmetic (DateTime, Date, "
                   "Time, Decimal, VarInt, Float, Double, Inet, TimeUUID) and frozen collections / UDTs are NOT covered; component "
                   "encodings of the covered types are written out in Bind.tla (Enc), not taken from the driver. Batches carry no "
                   "routing key in cqlengine and are out of scope. Trusted: TLC, the recording session double.",
@@ -153,7 +156,7 @@ def compare(env, st):
 
 
 def run(ctx):
-    types = {"int", "text", "bigint", "boolean", "uuid"} if ctx.quick else \
+    types = {"int", "text", "bigint", "uuid"} if ctx.quick else \
             {"int", "text", "bigint", "boolean", "uuid", "smallint", "tinyint", "ascii", "blob"}
     consts = {"MaxCols": 1, "MaxPk": 0, "PVs": {4}, "NVals": 1, "NTextVals": 1, "Partial": False, "MTypes": types, "MMaxPk": 3,
               "MOps": set(OPS), "MOrders": set(ORDERS), "MEmpty": not ctx.quick}
